@@ -28,14 +28,27 @@ func init() {
 					jobs = append(jobs, Job{Prop: "C18", Pkg: "repl", Func: "VerifAutoSave", Args: args, MaxDec: 800})
 				}
 			}
+			// histories: a save that died earlier (leftover temporary files), then a smaller state saved; a save whose
+			// temporary file vanishes before the rename
+			for _, h := range [][]string{
+				{`x = a`, `s = "str"`, "--", `big = [1,2,3,4,5,6,7,8,9,10,11,12]`, `t = "a rather long string value"`, "--", `del(big)`, `del(t)`, `x = 0`},
+				{`x = a`, "--", `y = "` + "yyyyyyyyyyyyyyyyyyyyyyyyyyyyyyyyyyyyyyyy" + `"`, `z = {1: a, 2: [b, b, b]}`, "--", `del(y)`, `del(z)`},
+				{"--", `x = a`, `func f(n){n+1}`, `w = "wwwwwwwwwwwwwwwwwwww"`, "--", `del(w)`, `del(f)`},
+				{`m = {1: a}`, "--", `m = {1: a, 2: a, 3: a, 4: a, 5: a, 6: a}`, "--", `m = {}`},
+			} {
+				for _, mode := range []string{"plain", "renamefails"} {
+					args := append(append([]string{}, h...), "12", mode)
+					jobs = append(jobs, Job{Prop: "C18", Pkg: "repl", Func: "VerifAutoSaveHistory", Args: args, MaxDec: 800})
+				}
+			}
 			return jobs
 		},
 		Budget: map[string]time.Duration{"quick": 6 * time.Minute, "thorough": 30 * time.Minute},
-		Reach:  []string{"killed during auto-save", "auto-save completed"},
+		Reach:  []string{"killed during auto-save", "auto-save completed", "second save killed", "third save completed", "save with a vanished temporary file"},
 		Bounds: map[string]interface{}{"states": "previous state of 0, 1, 3 and 4 bindings x new state adding/changing/deleting 0..4 bindings (16 combinations), values a, b all int64",
-			"crash_points": "every crash point: before and after creating the temporary file, after each written binding, after the last write, after the rename (index -1 = no crash .. 9)"},
+			"histories": "4 histories of three sessions: a crash-free save, a save of a larger state killed at every crash point 0..12 (leftover temporary files), then a save of a smaller state that completes - or whose temporary file vanishes before the rename (a failed save)", "crash_points": "every crash point: before and after creating the temporary file, after each written binding, after the last write, after the rename (index -1 = no crash .. 9)"},
 		Assumptions: []string{"crash points are the build-tag-guarded hook calls in repl.AutoSave and object.SaveGlobals (commit 04499b7): the process 'dies' by a panic raised from the hook, which the code under test does not recover",
 			"file-system model: rename within one directory is atomic; bytes accepted by Write survive the death of the process; no fsync / power-loss modelling; write failures are not injected (no native counterpart)"},
-		Outside: []string{"power loss, fsync ordering", "injected write failures", "crashes inside a single Write call"},
+		Outside: []string{"power loss, fsync ordering", "crashes inside a single Write call"},
 	})
 }
